@@ -61,6 +61,11 @@ const (
 	verifC18EmptyAns = "empty-ans.example" // resolved through dae, but the answer was empty
 	verifC18Verified = "verified.example"  // real-domain probe found addresses
 	verifC18Negative = "negative.example"  // real-domain probe found no record
+	// probes of which one address family failed (timeout / no route) while the other one was answered
+	verifC18HalfA4    = "half-a-fails.example"    // A lookup failed, AAAA answered: no record
+	verifC18HalfA6    = "half-aaaa-fails.example" // AAAA lookup failed, A answered: no record
+	verifC18HalfGood4 = "half-aaaa-fails-a-found.example"
+	verifC18HalfGood6 = "half-a-fails-aaaa-found.example"
 	verifC18Unknown  = "unknown.example"   // probe fails (both families error)
 	verifC18Lit4     = "93.184.216.34"
 	verifC18Lit6     = "2606:4700::1111"
@@ -77,6 +82,10 @@ func verifC18Classes() []verifC18Sniff {
 		{S: verifC18EmptyAns, Class: "resolved-empty-answer", Kind: "name-silent", Host: verifC18EmptyAns},
 		{S: verifC18Unknown, Class: "unknown", Kind: "name-notgenuine", Host: verifC18Unknown},
 		{S: verifC18Negative, Class: "negative-cached", Kind: "name-notgenuine", Host: verifC18Negative},
+		{S: verifC18HalfA4, Class: "probe-half-failed(A)-no-record", Kind: "name-notgenuine", Host: verifC18HalfA4},
+		{S: verifC18HalfA6, Class: "probe-half-failed(AAAA)-no-record", Kind: "name-notgenuine", Host: verifC18HalfA6},
+		{S: verifC18HalfGood4, Class: "known(verified,AAAA-lookup-failed)", Kind: "name-genuine", Host: verifC18HalfGood4},
+		{S: verifC18HalfGood6, Class: "known(verified,A-lookup-failed)", Kind: "name-genuine", Host: verifC18HalfGood6},
 		{S: strings.ToUpper(verifC18Known), Class: "upper-case-of-known", Kind: "name-variant", Host: strings.ToUpper(verifC18Known)},
 		{S: strings.ToUpper(verifC18Verified), Class: "upper-case-of-verified", Kind: "name-variant", Host: strings.ToUpper(verifC18Verified)},
 		{S: verifC18Known + ".", Class: "trailing-dot-of-known", Kind: "name-variant", Host: verifC18Known + "."},
@@ -462,6 +471,14 @@ func verifC18Setup(m *vk.Monitor) (env *verifC18Env, cleanup func(), ok bool) {
 			return &netutils.Ip46{Ip4: netip.MustParseAddr("203.0.113.9")}, nil, nil
 		case verifC18Negative:
 			return &netutils.Ip46{}, nil, nil
+		case verifC18HalfA4:
+			return &netutils.Ip46{}, fmt.Errorf("fake bootstrap resolver: A lookup timed out"), nil
+		case verifC18HalfA6:
+			return &netutils.Ip46{}, nil, fmt.Errorf("fake bootstrap resolver: AAAA lookup timed out")
+		case verifC18HalfGood4:
+			return &netutils.Ip46{Ip4: netip.MustParseAddr("203.0.113.19")}, nil, fmt.Errorf("fake bootstrap resolver: AAAA lookup timed out")
+		case verifC18HalfGood6:
+			return &netutils.Ip46{Ip6: netip.MustParseAddr("2001:db8::19")}, fmt.Errorf("fake bootstrap resolver: A lookup timed out"), nil
 		}
 		e := fmt.Errorf("fake bootstrap resolver: no route")
 		return &netutils.Ip46{}, e, e
@@ -511,7 +528,7 @@ func verifC18Setup(m *vk.Monitor) (env *verifC18Env, cleanup func(), ok bool) {
 	// ---- verified / negative-cached: let domain mode itself start the probe
 	cp.dialMode = consts.DialMode_Domain
 	dst := netip.MustParseAddrPort("198.51.100.1:443")
-	for _, n := range []string{verifC18Verified, verifC18Negative, verifC18Unknown} {
+	for _, n := range []string{verifC18Verified, verifC18Negative, verifC18Unknown, verifC18HalfA4, verifC18HalfA6, verifC18HalfGood4, verifC18HalfGood6} {
 		cp.ChooseDialTarget(consts.OutboundIndex(2), dst, n) // first hit: starts the asynchronous probe
 		t0 := time.Now()
 		for {
